@@ -54,8 +54,16 @@ func poolOracle(sc PoolScenario, r *PoolResult) (fs []Finding) {
 		if r.Cuts > 0 && g.Class == "error" {
 			continue // after a connection loss an error outcome is acceptable
 		}
-		if sc.Callers[i].Kind == "gete" {
-			// remaining lifetime is part of the answer
+		if sc.Callers[i].Kind == "gete" && r.ElapsedSec > 0 {
+			// remaining lifetime is part of the answer; the explorer let virtual time pass, so the
+			// pool's answer may be lower than the direct one by at most that much
+			for hi := range g.Hits {
+				for _, eh := range e.Hits {
+					if eh.Idx == g.Hits[hi].Idx && g.Hits[hi].TTL <= eh.TTL && eh.TTL-g.Hits[hi].TTL <= r.ElapsedSec {
+						g.Hits[hi].TTL = eh.TTL
+					}
+				}
+			}
 		}
 		if cl, d := DiffH(e, g); cl != "" {
 			if r.Cuts > 0 {
